@@ -263,7 +263,14 @@ def histories(draw, kinds=KINDS):
         for lam in (0.5, 1.0, peak, 0.75, 0.25):
             ops += [dict(op="solve", lam=lam), dict(op="save")]
         ops += [dict(op="set_iter", i=3, addr="index"), dict(op="continue", i=3, addr="index"), dict(op="continue", i=2, addr="index"),
-                dict(op="set_iter", i=4, addr="index")]
+                dict(op="continue", i=0, addr="index"), dict(op="set_iter", i=4, addr="index")]
+    elif kind != "phasefield" and draw(st.integers(0, 5)) == 0:
+        # (PhaseField.Save_Iter stores the convergence record of the last Solve and needs one)
+        # scenario: the initial configuration stored as iteration 0 before anything is solved, restored after the run
+        ops = [dict(op="save", initial=True)]
+        for k in range(draw(st.integers(2, 4))):
+            ops += [dict(op="solve", lam=0.5 * (k + 1)), dict(op="save")]
+        ops += [dict(op=draw(st.sampled_from(["continue", "continue", "set_iter"])), i=0, addr="index")]
     elif draw(st.integers(0, 4)) == 0:
         # scenario: a monitoring loop that looks at the iteration it has just stored as "the last one", in memory or on disk
         how = draw(st.sampled_from(["get_results", "result_iter", "set_iter"]))
@@ -343,8 +350,11 @@ def run_history(case, rec):
                 for s in snaps:
                     s["is_current"] = False
             elif name == "save":
-                if last_lam is None:
+                if last_lam is None and not (op.get("initial") and not snaps):
                     continue
+                if last_lam is None:
+                    rec.label("saved:initial_configuration")
+                    last_lam = 0.0
                 fields = ad.fields(simu)
                 extra = op.get("extra")
                 if extra:
